@@ -153,7 +153,11 @@ AGGS = {'sum': lambda x: x.arr_sum(), 'prod': lambda x: x.arr_prod(), 'mean': la
 # composite forms over three operands (all of the same shape s, or dot-compatible): built from the binary operators
 COMPOSITE = {'(a+b)*N': lambda a, b, c: (a + b) * NUM, 'N*(a-b)': lambda a, b, c: NUM * (a - b), '(a*b)+c': lambda a, b, c: (a * b) + c,
              'a-(b/c)': lambda a, b, c: a - (b / c), '(a+b).dot(c)': lambda a, b, c: (a + b).dot(c), 'a.dot(b)+c': lambda a, b, c: a.dot(b) + c,
-             'a.dot(b).dot(c)': lambda a, b, c: a.dot(b).dot(c), 'a.dot(b+c)': lambda a, b, c: a.dot(b + c)}
+             'a.dot(b).dot(c)': lambda a, b, c: a.dot(b).dot(c), 'a.dot(b+c)': lambda a, b, c: a.dot(b + c),
+             # an array combined element-wise with a dot RESULT (operator operand) of any shape, matching or not
+             'c+a.dot(b)': lambda a, b, c: c + a.dot(b), 'c*a.dot(b)': lambda a, b, c: c * a.dot(b),
+             'a.dot(b)-c': lambda a, b, c: a.dot(b) - c, 'a.dot(b)/c': lambda a, b, c: a.dot(b) / c}
+MIXED = ('c+a.dot(b)', 'c*a.dot(b)', 'a.dot(b)-c', 'a.dot(b)/c')
 
 
 def kind_json(k):
@@ -217,7 +221,15 @@ def main():
             for s in shp:
                 emit(run_case(form, (s,)))
                 emit(run_case(form, (s,), named=True))
+        small3 = [x for x in shp if all(n <= 3 for n in x)]
+        for form in MIXED:
+            for m_, n_ in itertools.product(range(1, 4), repeat=2):
+                for cshape in small3:
+                    emit(run_case(form, ((m_, n_), (n_,), cshape)))      # matrix . vector -> vector of length m
+                    emit(run_case(form, ((m_,), (m_, n_), cshape)))      # vector . matrix -> vector of length n
         for form in COMPOSITE:
+            if form in MIXED:
+                continue
             for s in shp:
                 if 'dot' in form:
                     if len(s) == 2 and s[0] == s[1]:
